@@ -114,7 +114,8 @@ def run(facts, res):
         res.floor("K2", "Delta::to_json / block loader anchors", 0, 2)
         return
     wk = set(tables.json_keys_written(w))
-    rk = set(tables.json_keys_read(r))
+    from ..common import members_of as _mo
+    rk = set(k_ for m_ in _mo(facts, r) for k_ in tables.json_keys_read(m_))
     res.instance("K2", "block keys written %s / read %s" % (sorted(wk), sorted(rk)), w.loc())
     res.floor("K2", "block keys written by Delta::to_json", len(wk), 4)
     if wk != rk:
